@@ -15,6 +15,7 @@ mod c15;
 mod c16;
 mod c17;
 mod c18;
+mod c20;
 
 fn main() {
     // panics of the code under test are data, not noise
@@ -33,6 +34,7 @@ fn main() {
         "c03-gen" => c03::corpus(rest),
         "c03-prod" => c03::prod(rest),
         "c17-pty" => c17::pty(),
+        "c20-drive" => c20::drive(rest),
         "c18-replay" => c18::replay(rest),
         "c18-parse" => c18::parse(rest),
         "c16-queue" => c16::queue(rest),
